@@ -93,9 +93,16 @@ type crossProg struct {
 	goSafe bool
 	nStmts int      // 1 or 2 statements of the alphabet
 	ctx    []string // context names, outermost first
+	pre    string   // "", "live", "dead": the state dump before the context
 }
 
 func crossBuild(name string, stmts []crossStmt, ctxs []crossCtx) crossProg {
+	return crossBuildPre(name, stmts, ctxs, "")
+}
+
+// pre: "" (nothing before the context), "live" (the state dump CrossPre runs before the context), "dead" (CrossPre
+// stands before the context in a branch that is never taken)
+func crossBuildPre(name string, stmts []crossStmt, ctxs []crossCtx, pre string) crossProg {
 	body := ""
 	owner, goSafe := 1, true
 	for i, s := range stmts {
@@ -124,8 +131,16 @@ func crossBuild(name string, stmts []crossStmt, ctxs []crossCtx) crossProg {
 			goSafe = false
 		}
 	}
+	switch pre {
+	case "live":
+		code = corpus.CrossPre + code
+		name += " pre=live"
+	case "dead":
+		code = "if k0 == 2 {\n" + corpus.CrossPre + "}\n" + code
+		name += " pre=dead"
+	}
 	src := corpus.CrossPrelude + defs + code + corpus.CrossEnd
-	cp := crossProg{name: name, prog: tsparse.MustProg(src), owner: owner, goSafe: goSafe, nStmts: len(stmts)}
+	cp := crossProg{name: name, prog: tsparse.MustProg(src), owner: owner, goSafe: goSafe, nStmts: len(stmts), pre: pre}
 	for _, c := range ctxs {
 		cp.ctx = append(cp.ctx, c.name)
 	}
@@ -133,13 +148,18 @@ func crossBuild(name string, stmts []crossStmt, ctxs []crossCtx) crossProg {
 }
 
 // crossPrograms returns the programs of the space for one tier. Quick: (X1) complete, (X2) in three contexts
-// (top level, a loop that runs twice, a function); thorough: (X2) in every context.
+// (top level, a loop that runs twice, a function), (X3) for single statements in every single context; thorough: (X2) in every context, (X3) also for pairs in every
+// repeating context.
 func crossPrograms(thorough bool) []crossProg {
 	stmts, ctxs := crossStmts(), crossCtxs()
 	var out []crossProg
 	for _, s := range stmts {
 		for _, c1 := range ctxs {
 			out = append(out, crossBuild("one="+s.name+" in="+c1.name, []crossStmt{s}, []crossCtx{c1}))
+			// (X3) the same after an earlier occurrence of every facility the state dump uses: one that ran
+			// and one that did not
+			out = append(out, crossBuildPre("one="+s.name+" in="+c1.name, []crossStmt{s}, []crossCtx{c1}, "live"))
+			out = append(out, crossBuildPre("one="+s.name+" in="+c1.name, []crossStmt{s}, []crossCtx{c1}, "dead"))
 			for _, c2 := range ctxs {
 				if c1.name == "top" || c2.name == "top" {
 					continue
@@ -158,11 +178,18 @@ func crossPrograms(thorough bool) []crossProg {
 					continue
 				}
 				out = append(out, crossBuild("pair="+a.name+" ; "+b.name+" in="+c.name, []crossStmt{a, b}, []crossCtx{c}))
+				// (X3) for pairs: thorough only, in every repeating context
+				if thorough && preCtx[c.name] {
+					out = append(out, crossBuildPre("pair="+a.name+" ; "+b.name+" in="+c.name, []crossStmt{a, b}, []crossCtx{c}, "live"))
+					out = append(out, crossBuildPre("pair="+a.name+" ; "+b.name+" in="+c.name, []crossStmt{a, b}, []crossCtx{c}, "dead"))
+				}
 			}
 		}
 	}
 	return out
 }
+
+var preCtx = map[string]bool{"for3x2": true, "whilex2": true, "func-twice": true, "loop-continue-break": true, "range-str": true}
 
 // crossFor returns the programs of the space that belong to one owner (1, 2, 3), or all (0).
 func crossFor(owner int, thorough bool) []crossProg {
@@ -239,7 +266,7 @@ func crossRun(r *findings.Run, owner int, deadline time.Time) (done, distinctN i
 	r.Set("cross_programs_distinct", distinct.Len())
 	r.Set("cross_distinct_expected_outputs", outcomes.Len())
 	r.Set("cross_skipped_undefined", undef)
-	r.Set("cross_space", fmt.Sprintf("%d statements x (%d contexts + every context nested in every context) + every ordered pair of statements x %s; the share of this property", len(crossStmts()), len(crossCtxs()), map[bool]string{false: "3 contexts (top level, loop run twice, function called twice)", true: "every context"}[r.Thorough()]))
+	r.Set("cross_space", fmt.Sprintf("%d statements x (%d contexts + every context nested in every context) + every ordered pair of statements x %s; the share of this property", len(crossStmts()), len(crossCtxs()), map[bool]string{false: "3 contexts (top level, loop run twice, function called twice); every statement in every single context also after a state dump that ran / that stands in a branch never taken", true: "every context; statements in every single context and pairs in every repeating context also after a state dump that ran / that stands in a branch never taken"}[r.Thorough()]))
 	if capped {
 		r.Set("exhaustive", false)
 		r.Set("cap_hit_cross", "cross-feature sweep stopped at the internal deadline")
@@ -292,11 +319,27 @@ func crossNameClash(p *Prog) string {
 // crossReduced is the share of the space that the Batch check (C05, under the cmd.exe model) and the static
 // check (C16) take in their quick tier: every statement in every single context, and every ordered pair of
 // statements inside a function that is called twice. Their thorough tiers take the whole quick space.
-func crossReduced(thorough bool) []crossProg {
+func crossReduced(thorough bool, morePairCtx ...string) []crossProg {
 	var out []crossProg
 	for _, p := range crossPrograms(false) {
-		if thorough || (p.nStmts == 1 && len(p.ctx) == 1) || (p.nStmts == 2 && p.ctx[0] == "func-twice") {
+		if thorough || (p.nStmts == 1 && len(p.ctx) == 1 && p.pre == "") || (p.nStmts == 2 && p.ctx[0] == "func-twice") {
 			out = append(out, p)
+		}
+	}
+	if !thorough && len(morePairCtx) > 0 {
+		// pairs in further single contexts (the quick space has pairs only at top level, in a loop and in a function)
+		stmts := crossStmts()
+		for _, c := range crossCtxs() {
+			for _, m := range morePairCtx {
+				if c.name != m {
+					continue
+				}
+				for _, a := range stmts {
+					for _, b := range stmts {
+						out = append(out, crossBuild("pair="+a.name+" ; "+b.name+" in="+c.name, []crossStmt{a, b}, []crossCtx{c}))
+					}
+				}
+			}
 		}
 	}
 	return out
